@@ -166,13 +166,21 @@ class Stdio(object):
         return False
 
 
-def run_cli(argv, stdin_text=""):
-    """Call main(argv) in-process.  Returns (status, stdout, stderr, exc)
-    where status is 'ok', 'exit:<code-or-message>' or 'raise:<type>'."""
+def run_cli(argv, stdin_text="", entry="argv"):
+    """Run the CLI in-process.  entry='argv' calls main(argv); entry=
+    'sys.argv' is how the installed console script and `python -m` enter:
+    sys.argv is set and main() is called without arguments.  Returns
+    (status, stdout, stderr) where status is 'ok', 'exit0', 'exit:<code>',
+    'exitmsg:<message>' or 'raise:<type>:<message>'."""
     from metomi.isodatetime.main import main
+    saved_argv = sys.argv
     with Stdio(stdin_text) as io_:
         try:
-            main(list(argv))
+            if entry == "sys.argv":
+                sys.argv = ["isodatetime"] + list(argv)
+                main()
+            else:
+                main(list(argv))
             status = "ok"
         except SystemExit as exc:
             code = exc.code
@@ -184,8 +192,11 @@ def run_cli(argv, stdin_text=""):
                 status = "exitmsg:%s" % (code,)
         except BaseException as exc:  # a traceback for a real user
             if type(exc).__name__ == "Hang":
+                sys.argv = saved_argv
                 raise
             status = "raise:%s:%s" % (type(exc).__name__, exc)
+        finally:
+            sys.argv = saved_argv
     return status, io_.out.getvalue(), io_.err.getvalue()
 
 
